@@ -7,7 +7,7 @@ CLAIMED = {
  'C01': dict(
    technique='Lean 4 proof: framing theorem by mutual structural induction on the type universe (decFull ∘ enc = id, header accepted), tied to the code by differential correspondence',
    text='Kernel-checked theorem deFull_ser: for every well-formed type of the modelled universe (all built-in implementations, derived structs/enums, any nesting), every well-typed value, every type name and digest function, full-copy deserialization of the serialized bytes returns the value and consumes exactly the bytes written; decFull_exhausted covers the refused exhausted range. The model is tied to /repo on every run by running generated types/values through the real crate and the compiled model and comparing bytes, values and counts.',
-   note='Model faithfulness is differential (generator-bounded); zero-copy enums are in the correspondence but outside Ty.wf (theorems partial there); rustc layout modelled; debug-profile semantics.',
+   note='Model faithfulness is differential (generator-bounded); zero-copy enums (repr(C): 4-byte tag + union) are inside Ty.wf since the memory round trip for enums was proved; rustc layout modelled; debug-profile semantics.',
    design='5/C01'),
 }
 
@@ -33,7 +33,7 @@ CLAIMED.update({
  'C02': dict(
    technique='Lean 4 proof: ε-copy framing theorem by mutual structural induction (decEps ∘ enc describes the value, consumes exactly the bytes, borrows only at writer blocks), agreement with full copy on serialized streams; differential correspondence on ε-copy results printed from the real DeserType',
    text='Kernel-checked: decEps_enc / deEps_ser (for every well-formed type, well-typed value, name and digest: from a buffer whose base is a multiple of every block unit, deserialize_eps returns a result whose erasure is the value and consumes exactly the bytes written), eps_full_agree_on_ser (both modes describe the same value and consume the same bytes on serialized streams). The correspondence prints ε-copy results through a Show trait implemented on the ε types themselves (borrowed slices/strs/refs with their offsets, rebuilt vectors, fully copied fields), so the substitution actually performed by rustc is compared with the model.',
-   note='agreement of the two modes on *arbitrary* byte strings is only exercised by the correspondence (mutated streams), not yet a theorem; zero-copy enums outside Ty.wf.',
+   note='agreement of the two modes on *arbitrary* byte strings is only exercised by the correspondence (mutated streams), not a theorem (and false for strings: the ε-copy reader does not validate UTF-8, the full-copy reader panics on invalid UTF-8).',
    design='5/C02'),
  'C12': dict(
    technique='Lean 4 proof: both directions of placement by mutual structural induction (aligned ⇒ value, any misplaced block ⇒ AlignmentError at the first one), tied by running the real deserialize_eps at all 128 base residues',
@@ -125,7 +125,7 @@ CLAIMED.update({
  'C05': dict(
    technique='Lean 4 proof: the derive macro modelled at definition level (field type expressions over parameters, Def.derive), classification theorem (ε-copy method iff the declared type is literally a parameter), ε-copy shape of derived types for arbitrary input bytes (conformance theorem by mutual structural induction), round trips as instances of the framing theorems; tied to the real macro by compiling a generated program of definitions drawn from the grammar and comparing core::any::type_name of the real DeserType, bytes and values',
    text='Kernel-checked: instFields_spec / mem_replacedParams (the generated code uses the ε-copy method for a field iff its declared type is literally a type parameter; the replaced parameters are exactly those), derived_struct_eps_shape / derived_enum_eps_shape (whatever the input bytes, a returned ε-copy result of a derived deep-copy type has the ε-copy shape of the argument at literal-parameter fields and an owned fully deserialized value at every other field, including fields that merely mention a parameter), derived_zero_eps_is_ref (a zero-copy type becomes a reference), derived_roundtrip_full / derived_roundtrip_eps (every well-formed derived type round-trips every value in both modes), attrsOk_iff. The run generates definitions from the grammar (all struct and variant styles, type / const / defaulted / phantom parameters, bounds, where-clauses, attributes, nesting), compiles them with the working tree\'s derive macro, compares the real DeserType name of every instantiation with the documented substitution, the model derive with the registered type, and round-trips values in both modes; accept / reject probe programs per grammar feature.',
-   note='the macro\'s token manipulation is not modelled: Def.derive is what it is observed to generate on the explored definitions (generator-bounded); definitions the macro is known not to handle are recorded findings; zero-copy enums outside Ty.wf.',
+   note='the macro\'s token manipulation is not modelled: Def.derive is what it is observed to generate on the explored definitions (generator-bounded); the three definitions the macro did not handle were repaired (fix commits 2589d3a, 8779dbe, 2989fc5).',
    design='5/C05'),
 })
 
